@@ -1,6 +1,7 @@
 import BeffVerif.Props.C02
 import BeffVerif.Props.C02Sound
 import BeffVerif.Props.C02Complete
+import BeffVerif.Props.C16Refs
 open BeffVerif.C02
 #print axioms valid_type_only
 #print axioms typeof_exact
@@ -33,3 +34,5 @@ open BeffVerif.C02
 #print axioms BeffVerif.C02F.schema_total_frag
 #print axioms BeffVerif.C02F.schema_exact_frag
 #print axioms BeffVerif.C02F.fragment_example_converse
+#print axioms BeffVerif.C16R.definition_refs_resolve
+#print axioms BeffVerif.C16R.returned_refs_resolve
